@@ -102,7 +102,7 @@ package inference
 //@ -- C15/C10/C03: the site of a key: every component is determined by the key (and the deep flag); for objects of
 //@ -- other packages the position recorded in the dependency's facts wins over the importer's own view.
 //@ func (*primitivizer).site
-//@ prop C15 C10 C03 C09
+//@ prop C15 C10 C03 C09 C04
 //@ pure
 //@ requires (and (not (= p nil)) (pathCacheOK p))
 //@ modifies (map p.objPathCache)
